@@ -26,6 +26,13 @@ def obligations(tier, ctx):
                 obs.append(Ob(name="chunk_" + "_".join(kt) + ("_crlf" if crlf else "") + f"_d{d}", params=[("i", "int")],
                               pre=["0 <= i", f"i + {d} <= H.text_len({kt!r}, {crlf})"], call=f"H.chunking({kt!r}, {crlf}, i, {d})",
                               backend="P", timeout=300, family="(a) event-stream chunking: every byte cut position (also inside multi-byte characters)"))
+    from symcheck import consts
+    ENV_SIZES = (4096, 8192, 65536, 131072)
+    lim = 70000 if tier == "quick" else 140000
+    nsz = len(consts.size_cases(lim, extra=ENV_SIZES))
+    for pat, cut in (((0, 0), (5, 2)) if tier == "quick" else ((0, 0), (0, 1), (0, 2), (0, 3), (0, 4), (5, 0), (5, 2), (4, 2), (1, 1))):
+        obs.append(Ob(name=f"chunk_long_p{pat}_c{cut}", params=[("k", "int")], pre=[f"0 <= k < {nsz}"], call=f"H.chunking_long(k, {pat}, {cut}, {lim})", backend="P", timeout=900,
+                      family="(a) size: an event line of c-1, c, c+1 characters (c: integer constants of the source and environment sizes), five ways of cutting it"))
     for via in (False, True):
         tag = "client" if via else "transport"
         obs.append(Ob(name=f"establish_refused_{tag}", params=[("n", "bool")], pre=[], call=f"H.establish(0, 200, 0, n, {via})", backend="P", timeout=120, family="(b) live-or-raise"))
